@@ -20,20 +20,34 @@ RULE = ("in-process cases = (settings, suppressions, source + headers) -> cache 
         "(token edits, line/column shifts of 1/255/256/257/512, comment-only edits, inline suppressions, header edits, "
         "add/remove/rename/touch, -j1/-j2); non-trivial = the file has >= 3 code tokens resp. the run follows an edit and a file is reused or re-analysed")
 EXPLANATION = ("Lean: for every hash function, per-file analysis, summaries and whole-program analysis, every run of every edit history over "
-               "one build directory reports what a run without build directory reports (history_transparent_partial), given an injective hash, "
-               "no path listed twice, and excluding two defects that remain in the code and are proved and replayed as counterexamples: macro-scoped "
+               "one build directory reports what a run without build directory reports (history_transparent_partial), given that no two hash inputs "
+               "OF THE HISTORY collide (HashInjOn - satisfiable by a lossy hash, shown by example, and necessary, shown by counterexample), no path "
+               "listed twice, and excluding two defects that remain in the code and are proved and replayed as counterexamples: macro-scoped "
                "suppressions are not re-applied to replayed findings, function-return summaries (*.sN) are not part of the key. The hash data the code "
                "composes (translated on every run from the two calculateHash functions) is proved uniquely decodable; the files.txt mapping is proved "
-               "injective; the pre-repair composition / lookup are kept as counterexample theorems (repaired by 72c97eb, 249f096). Tie: translation + "
-               "in-process hashing of the model's bytes against the real functions + reuse decisions of CLI histories. The analysis itself (that it "
-               "is a function of path, non-comment tokens, header names and options) is a parameter of the theorems, not verified; hash collisions "
-               "of std::hash are a hypothesis.")
+               "injective; a run is proved independent of the order in which the workers finish the files (run_any_worker_order: one file = one atomic "
+               "step on its own cache file) - two workers inside one cache file and the extra in-memory whole-program pass of -j1 are not modelled "
+               "(P_impl runs half of the CLI runs with -j2). The pre-repair composition / lookup are kept as counterexample theorems (72c97eb, 249f096). "
+               "Tie: translation + in-process hashing of the model's bytes against the real functions + reuse decisions of CLI histories. The analysis "
+               "itself (that it is a function of path, non-comment tokens, header names and options - see assumptions) is a parameter of the theorems, "
+               "not verified; the contents of library files named by --library are outside that input (known finding library-file-contents-not-in-key).")
+ASSUMPTIONS = [
+    "the per-file analysis is a function of: file path, non-comment raw tokens with line/column of the file and of every loaded header, header names, "
+    "the option values, Settings::summaryReturn (World.analyze : SummRet -> View -> findings); anything else it reads is outside the theorems",
+    "not in View and therefore not in the key: which headers are ABSENT (include search misses, __has_include), contents of library .cfg files "
+    "(demonstrated: known finding library-file-contents-not-in-key), of platform files, addon scripts, --rule-file, the environment, time limits",
+    "no two hash inputs that occur in one history collide under std::hash<std::string> (HashInjOn)",
+    "the build directory starts empty or holds only files written by this binary (toolinfo contains the version string / product name)",
+    "paths are simplified (Path::simplifyPath is the identity on them); command line files only (cfg and fsFileId columns of files.txt empty)",
+    "each file is one atomic step of a worker; two workers writing one cache file concurrently are not modelled",
+]
 THEOREMS = ["Cppcheck.Cache." + t for t in (
     "history_transparent_partial", "history_transparent_generic", "history_transparent_perFile_generic",
     "fixed_key_faithful", "render_pathPrefixed", "files_txt_mapping_injective", "files_txt_mapping_injective_partial",
     "encoding_not_injective", "linecol_mod_256_counterexample", "file_boundary_counterexample", "suffix_lookup_shares_cache_file",
     "suffix_lookup_counterexample", "removed_file_counterexample", "macro_suppression_counterexample", "summaries_counterexample",
-    "current_encoding_fixed", "current_lookup_exact", "current_toolinfo_path_first", "current_toolinfo_fields_known")]
+    "current_encoding_fixed", "current_lookup_exact", "current_toolinfo_path_first", "current_toolinfo_fields_known",
+    "hashInput_fixed_unique", "ofSettings_pathPrefixed", "run_any_worker_order", "hash_collision_counterexample")]
 MODULES = ["Cppcheck.Props.C18"]
 
 
@@ -685,9 +699,11 @@ def cppcheck(ctx, cwd, files, bd=None, jobs=1, extra=None):
 
 
 KEY_SUMM = "summaries-not-in-cache-key"
+KEY_LIBFILE = "library-file-contents-not-in-key"
+BASE_OPTS = ["--inline-suppr"]
 
 
-def cached_phase(ctx, trees, jobs, tag):
+def cached_phase(ctx, trees, jobs, tag, xopts=()):
     """the runs that share the build directory (sequential); every tree and every build-dir state before a run is snapshotted"""
     work = os.path.join(ctx.tmp, "hist", tag)
     shutil.rmtree(work, ignore_errors=True)
@@ -705,8 +721,8 @@ def cached_phase(ctx, trees, jobs, tag):
         write_tree(snap, tree)
         shutil.copytree(bd, os.path.join(work, "bd%d" % k))
         j = jobs[k] if isinstance(jobs, list) else jobs
-        rc_c, cached, dec, other_c = cppcheck(ctx, src, files, bd="../bd", jobs=j)
-        runs.append(dict(cached=cached, rc_c=rc_c, dec=dec, files=files, jobs=j, other=other_c, snap=snap, work=work, k=k))
+        rc_c, cached, dec, other_c = cppcheck(ctx, src, files, bd="../bd", jobs=j, extra=BASE_OPTS + list(xopts))
+        runs.append(dict(cached=cached, rc_c=rc_c, dec=dec, files=files, jobs=j, other=other_c, snap=snap, work=work, k=k, xopts=list(xopts)))
     return runs
 
 
@@ -716,7 +732,7 @@ def finish_histories(ctx, exe, drv, hists):
     todo = [r for _, runs in hists for r in runs if r is not None]
 
     def fresh(r):
-        rc_f, fr, _, other = cppcheck(ctx, r["snap"], r["files"])
+        rc_f, fr, _, other = cppcheck(ctx, r["snap"], r["files"], extra=BASE_OPTS + r["xopts"])
         r["fresh"], r["rc_f"] = fr, rc_f
         r["other"] += other
     with ThreadPoolExecutor(max_workers=3) as ex:
@@ -761,11 +777,11 @@ def without_summaries(ctx, r):
     for f in os.listdir(bdc):
         if re.search(r"\.s\d+$", f):
             os.remove(os.path.join(bdc, f)); n += 1
-    rc, cached, _, _ = cppcheck(ctx, r["snap"], r["files"], bd=bdc, jobs=r["jobs"])
+    rc, cached, _, _ = cppcheck(ctx, r["snap"], r["files"], bd=bdc, jobs=r["jobs"], extra=BASE_OPTS + r["xopts"])
     return n, rc, cached
 
 
-def shadow_history(ctx, trees, jobs, upto, tag):
+def shadow_history(ctx, trees, jobs, upto, tag, xopts=()):
     """the same history over a second build directory whose function-return summaries (*.sN) are removed before every run"""
     work = os.path.join(ctx.tmp, "hist", tag + "-shadow")
     shutil.rmtree(work, ignore_errors=True)
@@ -782,7 +798,7 @@ def shadow_history(ctx, trees, jobs, upto, tag):
             if re.search(r"\.s\d+$", f):
                 os.remove(os.path.join(bd, f))
         j = jobs[k] if isinstance(jobs, list) else jobs
-        rc, cached, _, _ = cppcheck(ctx, src, files, bd="../bd", jobs=j)
+        rc, cached, _, _ = cppcheck(ctx, src, files, bd="../bd", jobs=j, extra=BASE_OPTS + list(xopts))
         out.append((cached, rc))
     return out
 
@@ -806,11 +822,19 @@ def classify(ctx, run, trees, jobs, tag):
         keys.add(KEY_MACRO)
     if keys:
         return keys
+    # a library file named by --library=<file> was edited after the differing file was analysed last, and every differing finding
+    # is in a file that was served from the cache: the *contents* of library files are not part of the key (only their names)
+    libs = [x.split("=", 1)[1] for x in run["xopts"] if x.startswith("--library=")]
+    hits = [f for f, (_, d, _) in run["model"].items() if d == "h"]
+    diff = set(run["cached"]) ^ set(run["fresh"])
+    if libs and hits and all(l.split("|")[0] in hits for l in diff) and \
+            any(trees[j].get(lib) != tree.get(lib) for lib in libs for j in range(run["k"])):
+        return {KEY_LIBFILE}
     # nothing in the key / mapping / replay explains it: does the difference come from the *.sN files?
     nsum, rc2, cached2 = without_summaries(ctx, run)
     if nsum and (cached2, rc2) == (run["fresh"], run["rc_f"]):
         return {KEY_SUMM}
-    sh = shadow_history(ctx, trees, jobs, run["k"], tag)
+    sh = shadow_history(ctx, trees, jobs, run["k"], tag, run["xopts"])
     if sh[run["k"]] == (run["fresh"], run["rc_f"]):
         return {KEY_SUMM}      # a result computed under the summaries of an earlier run is replayed from the cache
     return None
@@ -843,7 +867,7 @@ def judge_history(ctx, res, trees, jobs, runs, tag, origin):
             keys = classify(ctx, r, trees, jobs, tag)
             what = "run %d (-j%d) of history %s with --cppcheck-build-dir reports %s, without build dir %s" % (
                 k, r["jobs"], tag, sorted(set(r["cached"]) - set(r["fresh"]))[:3] or "(nothing extra)", sorted(set(r["fresh"]) - set(r["cached"]))[:3] or "(nothing extra)")
-            payload = dict(trees=trees[:k + 1], jobs=(jobs[:k + 1] if isinstance(jobs, list) else jobs), cached=r["cached"], fresh=r["fresh"],
+            payload = dict(trees=trees[:k + 1], jobs=(jobs[:k + 1] if isinstance(jobs, list) else jobs), options=r["xopts"], cached=r["cached"], fresh=r["fresh"],
                            rc_cached=r["rc_c"], rc_fresh=r["rc_f"], model={f: list(v) for f, v in r["model"].items()},
                            replay_cmd="./check.py C18 --replay <this file>")
             if keys is None:
@@ -857,6 +881,9 @@ def judge_history(ctx, res, trees, jobs, runs, tag, origin):
 
 
 # ---- history generator ----
+
+LIBCFG = '<?xml version="1.0"?>\n<def>\n  <memory>\n    <alloc>%s</alloc>\n    <dealloc>myfree</dealloc>\n  </memory>\n</def>\n'
+
 
 class Gen:
     def __init__(self, rng):
@@ -901,6 +928,9 @@ class Gen:
         if rng.random() < 0.3:
             tree["p.c"] = '#include "p.h"\n' + self.bug_line() + "\n"
             tree["p.h"] = ""
+        if rng.random() < 0.25:
+            tree["my.cfg"] = LIBCFG % "myalloc"
+            tree["lc.c"] = "void *myalloc(int); void *otheralloc(int); void myfree(void*);\nvoid fl%d(void){ void *p = myalloc(3); (void)p; }\n" % self.fresh()
         if rng.random() < 0.3:
             k = self.fresh()
             tree["sb.c"] = "void fr%d(void){}\n" % k
@@ -912,6 +942,9 @@ class Gen:
         rng = self.rng
         t = dict(tree)
         cs = sources(t)
+        if "my.cfg" in t and rng.random() < 0.2:
+            t["my.cfg"] = LIBCFG % ("otheralloc" if "<alloc>myalloc" in t["my.cfg"] else "myalloc")
+            return "libfile", t
         kind = rng.choice(["tok", "tok", "shiftl", "shiftl", "shiftc", "comment", "suppr", "hdr", "hdr-shift", "add", "rm", "mv", "touch",
                            "to-header", "copy", "del", "nothing"])
         f = rng.choice(cs)
@@ -1020,20 +1053,20 @@ def cli_histories(ctx, res, exe, drv, n, nruns):
     todo = []       # (tag, origin, trees, jobs, corpus entry)
     # corpus first: the witnesses of the known findings must still be seen by the machinery
     for c in load_corpus():
-        todo.append(("corpus-" + c["name"], "corpus", c["trees"], c["jobs"], c))
+        todo.append(("corpus-" + c["name"], "corpus", c["trees"], c["jobs"], c, c.get("options", [])))
     for h in range(n):
         trees, kinds = gen_history(rng, nruns)
-        jobs = [rng.choice([1, 1, 2]) for _ in trees] if rng.random() < 0.5 else rng.choice([1, 2])
+        jobs = [rng.choice([1, 2]) for _ in trees] if rng.random() < 0.5 else rng.choice([1, 2])
         for k in kinds:
             for part in k.split("+"):
                 res.count("edit:" + part)
-        todo.append(("h%d" % h, "generated", trees, jobs, None))
+        todo.append(("h%d" % h, "generated", trees, jobs, None, ["--library=my.cfg"] if "my.cfg" in trees[0] else []))
     from concurrent.futures import ThreadPoolExecutor
     with ThreadPoolExecutor(max_workers=3) as ex:      # histories are independent of each other (own directories)
-        hists = list(ex.map(lambda t: (t[2], cached_phase(ctx, t[2], t[3], t[0])), todo))
+        hists = list(ex.map(lambda t: (t[2], cached_phase(ctx, t[2], t[3], t[0], t[5])), todo))
     finish_histories(ctx, exe, drv, hists)
     all_ops, all_impl, all_model = [], [], []
-    for (tag, origin, trees, jobs, c), (_, runs) in zip(todo, hists):
+    for (tag, origin, trees, jobs, c, xo), (_, runs) in zip(todo, hists):
         seen, ops, impl, model = judge_history(ctx, res, trees, jobs, runs, tag, origin)
         all_ops += ops; all_impl += impl; all_model += model
         if c and c.get("key"):
@@ -1046,7 +1079,7 @@ def replay(ctx, res, rp):
     drv = ctx.driver("drv_c18")
     exe = ctx.harness("c18")
     trees, jobs = rp["trees"], rp.get("jobs", 1)
-    runs = cached_phase(ctx, trees, jobs, "replay")
+    runs = cached_phase(ctx, trees, jobs, "replay", rp.get("options", []))
     finish_histories(ctx, exe, drv, [(trees, runs)])
     bad = 0
     for k, r in enumerate(runs):
@@ -1085,3 +1118,4 @@ def run(ctx, res):
     cli_histories(ctx, res, exe, drv, 60 if thorough else 5, 7 if thorough else 4)
     T["cli"] = round(time.time() - t, 1)
     res.extra["timings_s"] = T
+    res.assumptions = list(ASSUMPTIONS)
